@@ -1,5 +1,6 @@
 /* shorthands used by the C09 contracts: pre-state (function contracts) and loop-entry (loop contracts) values.
-   MGR is the StreamAckManager the clause talks about: `self` in its own members, `(&self->q->ack)` in C2sStreamManager
+   MGR is the StreamAckManager the clause talks about: `self` in its own members, `(&self->q->d->streamAckManager)` in C2sStreamManager,
+   `(&self->d->streamAckManager)` in QXmppOutgoingClient
    (redefined in front of each function; macros expand where the clause stands) */
 #define O_W_IN     __CPROVER_old(MGR->m_unacknowledgedStanzas.w_in)
 #define O_W_KEY    __CPROVER_old(MGR->m_unacknowledgedStanzas.w_key)
